@@ -66,7 +66,7 @@ def conservation(ev):
             v = float(vals[k])
             pcs = arr[tags == k]
             ssum = float(pcs.sum())
-            where = f'integrated variable {j}, segment {k} {list(s["a"])}->{list(p["pts"][k + 1])} (1/{p["unit"]} deg), value {v}'
+            where = f'integrated variable {j}, {R.where_segment(p, k)}, value {v}'
             if not np.all(np.isfinite(pcs)):
                 f = 'C04-antimeridian-same-point-nan' if (ex['zero'] and s['am']) else None
                 vio.append(V('non-finite', f'{where}: pieces {pcs.tolist()}', finding=f))
@@ -92,6 +92,10 @@ def conservation(ev):
                 f = None
                 if ex['zero'] and v != 0 and len(pcs) and np.all(pcs == 0.0):
                     f = 'C04-repeated-point-drops-value'
+                if ex['zero'] and not s['am'] and v != 0 and len(pcs) >= 2 and np.all(pcs == v):
+                    # two float64 positions with geodesic distance exactly 0 on different sides of
+                    # a grid line: every sub-segment keeps the whole value
+                    f = 'C04-zero-length-leg-across-grid-line-counted-per-cell'
                 vio.append(V('segment-sum', f'{where}: pieces {pcs.tolist()} sum to {ssum!r}; {what}', finding=f))
                 seg_bad = True
         tot = float(np.sum(arr))
